@@ -305,6 +305,13 @@ func (st *State) staticCall(fr *Frame, in ssa.Instruction, fn *ssa.Function, bin
 			}
 		}
 		c := e.contracts[name]
+		if ec := e.contracts[e.curFn]; c != nil && ec != nil && strings.Contains(" "+ec.Flags["inlinecalls"]+" ", " "+name+" ") {
+			// the function under verification asks to see this callee's body (e.g. a constructor that must observe
+			// the effect of the option closures it passes on); the callee's own contract still annotates its loops
+			nf := st.pushFrame(target, args, bindings, in)
+			nf.isDefer = isDefer
+			return true
+		}
 		if c != nil && !c.Inline && len(st.frames) > 0 && name != e.curFn {
 			return st.modularCall(fr, in, target, c, args, pos)
 		}
@@ -489,7 +496,13 @@ func (st *State) callOut(fr *Frame, in ssa.Instruction, kind string, sig *types.
 	if h, ok := callOutHooks[kind]; ok {
 		h(st, fr, args, parts, pos)
 	}
-	if c := e.ifaceSpecs[kind]; c != nil {
+	c := e.ifaceSpecs[kind]
+	if c2 := e.ifaceSpecs[kind+" "+types.TypeString(sig, types.RelativeTo(e.P.TPkg))]; c2 != nil {
+		c = c2 // a spec for this kind AND signature (parameter names clash across functions: options[])
+	} else if c != nil && c.Flags["sig"] != "" && c.Flags["sig"] != types.TypeString(sig, types.RelativeTo(e.P.TPkg)) {
+		c = nil
+	}
+	if c != nil {
 		pre := st.snapshot()
 		for _, m := range e.expandFrames(c.Modifies) {
 			st.havoc(strings.TrimPrefix(m, "new:"))
